@@ -30,6 +30,7 @@ type Clause struct {
 
 type ModItem struct {
 	Expr   string // path expression
+	All2   bool   // path[*][*]: the contents of every map stored in the map
 	All    bool   // path[*]
 	GoName string
 	Loop   int
@@ -113,6 +114,7 @@ type ContractFile struct {
 	Lemmas  []*Lemma
 	LockInvs []*LockInv
 	Decls   []string // raw Go declarations (ghost vars, helper types)
+	Ranks   map[string]int
 	Shared  []string // locations accessed with sync/atomic by several goroutines: "Type.field" or "cell T"
 }
 
@@ -259,6 +261,19 @@ func parseContractFile(pkg, path string) (*ContractFile, error) {
 			cur = &FuncContract{Arch: curArch, Pkg: pkg, Recv: m[3], Name: m[5], Header: t, LoopInv: map[int][]*Clause{}, LabelInv: map[string][]*Clause{},
 				LoopDec: map[int]*Clause{}, LoopMod: map[int][]*ModItem{}, Attrs: map[string]string{}, Line: l.n, File: path}
 			cf.Funcs = append(cf.Funcs, cur)
+		case "rank":
+			f := strings.Fields(rest)
+			if len(f) != 2 {
+				return nil, errf("bad rank (want: rank <Type> <n>)")
+			}
+			n, err := strconv.Atoi(f[1])
+			if err != nil {
+				return nil, errf("bad rank number")
+			}
+			if cf.Ranks == nil {
+				cf.Ranks = map[string]int{}
+			}
+			cf.Ranks[f[0]] = n
 		case "shared":
 			cf.Shared = append(cf.Shared, rest)
 		case "requires", "ensures", "assumes":
@@ -399,7 +414,10 @@ func parseModItems(s string, loop int) []*ModItem {
 			continue
 		}
 		m := &ModItem{Expr: it, Loop: loop}
-		if strings.HasSuffix(it, "[*]") {
+		if strings.HasSuffix(it, "[*][*]") {
+			m.All, m.All2 = true, true
+			m.Expr = strings.TrimSuffix(it, "[*][*]")
+		} else if strings.HasSuffix(it, "[*]") {
 			m.All = true
 			m.Expr = strings.TrimSuffix(it, "[*]")
 		}
@@ -649,6 +667,9 @@ func isIdentChar(c byte) bool { return isIdentStart(c) || (c >= '0' && c <= '9')
 
 const gcPrelude = `
 // ---- contract prelude (generated; never written to disk) ----
+var _ = time.Now
+// gcNow is the most recent reading of the clock in the current call.
+func gcNow() time.Time { return time.Time{} }
 func gcOld[T any](x T) T { return x }
 func gcIte[T any](c bool, a, b T) T { if c { return a }; return b }
 func gcImplies(a, b bool) bool { return !a || b }
